@@ -87,6 +87,20 @@ def rule_R2(chk, repo):
             raise AnalysisError(f'{cname}.generate_graph: OpGraph(...) construction not found')
         registered = {x.attr for x in ast.walk(reg.args[0]) if isinstance(x, ast.Attribute) and
                       isinstance(x.value, ast.Name) and x.value.id == 'self'}
+        if isinstance(reg.args[0], ast.Name):
+            # the node list is built first: every statement before the construction that feeds that list counts
+            # (extend / append / +=, directly or through a loop over a tuple of tables)
+            lst = reg.args[0].id
+            for st_ in gg.node.body:
+                if st_.lineno >= reg.lineno:
+                    break
+                feeds = any((isinstance(x, ast.Call) and isinstance(x.func, ast.Attribute) and
+                             x.func.attr in ('extend', 'append') and norm(x.func.value) == lst) or
+                            (isinstance(x, (ast.Assign, ast.AugAssign)) and
+                             norm(x.targets[0] if isinstance(x, ast.Assign) else x.target) == lst) for x in ast.walk(st_))
+                if feeds:
+                    registered |= {x.attr for x in ast.walk(st_) if isinstance(x, ast.Attribute) and
+                                   isinstance(x.value, ast.Name) and x.value.id == 'self'}
         chk.ob(rid, where(repo, gg, reg), f'{cname}: every created family is in the node list of the graph',
                fams <= registered, f'missing: {sorted(fams - registered)}', key=f'{rid}|{cname}|registered')
         # nested families must be flattened with two levels, flat ones with list(...values())
@@ -345,7 +359,9 @@ def rule_R5(chk, repo, rid='C07.R5'):
                   'elements); pure creation families are transformed with u, pure annihilation families with conj(u)')
     from ..normal import wrap, inline_procedures
     fi = repo.func('hamiltonian.molecular_hamiltonian_orbital_gauge_transform')
-    fi = wrap(fi, inline_procedures({n_: f_.node for n_, f_ in repo.modules[fi.module].functions.items()}))
+    from ..normal import continue_to_nested_if
+    fi = wrap(fi, inline_procedures({n_: f_.node for n_, f_ in repo.modules[fi.module].functions.items()}),
+              continue_to_nested_if)
     halves = {}
     cur = None
     for s in fi.node.body:
